@@ -24,7 +24,8 @@ use crate::{
     GDResult,
 };
 
-use bzip2_rs::decoder::Decoder;
+use bzip2_rs::DecoderReader;
+use std::io::Read;
 
 use crate::buffer::Utf8Decoder;
 use crate::protocols::valve::Packet;
@@ -89,17 +90,19 @@ impl SplitPacket {
 
     fn get_payload(&self) -> GDResult<Vec<u8>> {
         if let Some(decompressed) = self.decompressed {
-            let mut decoder = Decoder::new();
-            decoder
-                .write(&self.payload)
-                .map_err(|e| Decompress.context(e))?;
-
             let decompressed_size = decompressed.0 as usize;
+            if decompressed_size > MAX_DECOMPRESSED_SIZE {
+                return Err(Decompress.context(format!(
+                    "Decompressed size {decompressed_size} is larger than the maximum {MAX_DECOMPRESSED_SIZE}"
+                )));
+            }
 
-            let mut decompressed_payload = vec![0; decompressed_size];
-
-            decoder
-                .read(&mut decompressed_payload)
+            // Read until the end of the compressed stream (but not more than announced, plus
+            // one byte to notice a longer stream): memory is reserved as data actually arrives.
+            let mut decompressed_payload = Vec::new();
+            DecoderReader::new(self.payload.as_slice())
+                .take(decompressed_size as u64 + 1)
+                .read_to_end(&mut decompressed_payload)
                 .map_err(|e| Decompress.context(e))?;
 
             if decompressed_payload.len() != decompressed_size
@@ -125,6 +128,10 @@ pub(crate) struct ValveProtocol {
 }
 
 static PACKET_SIZE: usize = 6144;
+
+/// Upper bound for the announced size of a decompressed split response: a response has at
+/// most 255 packets and real ones stay far below this.
+const MAX_DECOMPRESSED_SIZE: usize = 16 * 1024 * 1024;
 
 impl ValveProtocol {
     pub fn new(address: &SocketAddr, timeout_settings: Option<TimeoutSettings>) -> GDResult<Self> {
